@@ -1,52 +1,63 @@
 import FstVerif.Proofs.Lev
+import FstVerif.Proofs.LevDfa
 /-
-C17 — Levenshtein. Character level (all queries, distances, keys): statements
-here, proofs in Proofs/Lev.lean against the independent definition
-`Spec.lev` (Spec/Lev.lean: structural recursion, tied to edit scripts by
-`Spec.lev_eq_iff`). Byte level: PARTIAL — the model of the DFA construction
-(Model/Lev.lean) is compared state-for-state with the real DFA for the
-enumerated (query, distance) pairs by ./check; a proof that the construction
-yields the UTF-8 lifting of the DP automaton for every query is not done.
+C17 — the Levenshtein automaton accepts exactly the keys within the edit
+distance, counted in Unicode scalar values. Statements here. Proofs:
+Proofs/Lev.lean (the capped DP row decides `Spec.lev`, the edit distance
+defined by structural recursion in Spec/Lev.lean and tied to edit scripts),
+Proofs/LevDfa*.lean (the DFA construction of Model/Lev.lean yields the UTF-8
+lifting of the DP automaton, for EVERY query). `Spec.utf8Full` is the result of
+utf8-ranges' `Utf8Sequences::new(0, 0x10FFFF)`; the harness compares it with
+the real crate on every run and the driver with this literal.
 -/
 namespace Fst.Props
-open Fst
+open Fst Fst.Spec
 
-/-- the DP row automaton matches exactly the keys within the edit distance
-(scalar values; every query, every distance, every key) -/
-theorem C17_dp (l : DynLev) (k : List Nat) :
-    l.isMatch (k.foldl (fun st c => l.accept st (some c)) l.start) = true ↔
-      Spec.lev l.query k ≤ l.dist := Fst.C17_dp l k
+/-- BYTE LEVEL, every query, every distance, every key: whenever the construction returns an
+automaton (`new_with_limit` = Ok), that automaton matches the UTF-8 encoding of a key iff the
+edit distance between query and key, in scalar values, is at most `dist` -/
+theorem C17_dfa (query : List Nat) (dist limit fuel : Nat) (states : Array DState)
+    (hq : ∀ c ∈ query, ValidScalar c)
+    (hb : levNew query dist Spec.utf8Full limit fuel = some (.ok states))
+    (k : List Nat) (hk : ∀ c ∈ k, ValidScalar c) :
+    (levAut states).accepts (k.flatMap utf8Enc) = true ↔ Spec.lev query k ≤ dist :=
+  Fst.C17_dfa query dist limit fuel states hq hb k hk
 
-/-- `can_match` is sound: once false, no continuation (through query characters or
-the "any other character" step `none`) matches -/
-theorem C17_can_match_sound (l : DynLev) (st : List Nat) (h : l.canMatch st = false)
-    (w : List (Option Nat)) : l.isMatch (w.foldl (fun st c => l.accept st c) st) = false :=
-  Fst.C17_dp_can_opt l st h w
-
-/-- the construction's "mismatch" step stands for every character not in the query -/
-theorem C17_mismatch_char (l : DynLev) (st : List Nat) (c : Nat) (hc : c ∉ l.query) :
-    l.accept st none = l.accept st (some c) := Fst.accept_none_eq l st c hc
-
-/-- the specification is the minimum length of an edit script (insertions, deletions, substitutions) -/
-theorem C17_spec_is_edit_distance (q k : List Nat) (n : Nat) :
-    Spec.lev q k = n ↔ Spec.Edit q k n ∧ ∀ m, Spec.Edit q k m → n ≤ m := Spec.lev_eq_iff q k n
+/-- its `can_match` hint is sound: once false after a key (or part-way through a
+character), no extension is within the distance — so searching an FST with it prunes nothing
+it should return (with `C04_search`) -/
+theorem C17_dfa_can_match (query : List Nat) (dist limit fuel : Nat) (states : Array DState)
+    (hq : ∀ c ∈ query, ValidScalar c)
+    (hb : levNew query dist Spec.utf8Full limit fuel = some (.ok states))
+    (k : List Nat) (hk : ∀ c ∈ k, ValidScalar c)
+    (hdead : (levAut states).canMatch ((levAut states).run (levAut states).start (k.flatMap utf8Enc)) = false)
+    (k' : List Nat) : ¬ Spec.lev query (k ++ k') ≤ dist :=
+  Fst.C17_dfa_can_match query dist limit fuel states hq hb k hk hdead k'
 
 /-- a construction that would exceed the state limit does not return an automaton -/
 theorem C17_limit (query : List Nat) (dist : Nat) (full : List (List (Nat × Nat))) (limit fuel : Nat)
     (states : Array DState) (h : levNew query dist full limit fuel = some (.ok states)) :
     states.size ≤ limit := Fst.C17_limit query dist full limit fuel states h
 
-theorem C17_utf8_len (c : Nat) :
-    (utf8Enc c).length = if c < 0x80 then 1 else if c < 0x800 then 2 else if c < 0x10000 then 3 else 4 := by
-  unfold utf8Enc
-  split
-  · rfl
-  · split
-    · rfl
-    · split <;> rfl
+/-- CHARACTER LEVEL: the DP row automaton decides the edit distance -/
+theorem C17_dp (l : DynLev) (k : List Nat) :
+    l.isMatch (k.foldl (fun st c => l.accept st (some c)) l.start) = true ↔
+      Spec.lev l.query k ≤ l.dist := Fst.C17_dp l k
 
-example : utf8Enc 0xE9 = [0xC3, 0xA9] := by decide
-example : utf8Enc 0x1F600 = [0xF0, 0x9F, 0x98, 0x80] := by decide
+theorem C17_can_match_sound (l : DynLev) (st : List Nat) (h : l.canMatch st = false)
+    (w : List (Option Nat)) : l.isMatch (w.foldl (fun st c => l.accept st c) st) = false :=
+  Fst.C17_dp_can_opt l st h w
+
+/-- the specification is the minimum length of an edit script (insertions, deletions, substitutions) -/
+theorem C17_spec_is_edit_distance (q k : List Nat) (n : Nat) :
+    Spec.lev q k = n ↔ Spec.Edit q k n ∧ ∀ m, Spec.Edit q k m → n ≤ m := Spec.lev_eq_iff q k n
+
+/-- UTF-8: every valid scalar's encoding is matched by exactly one of the nine sequences,
+encodings are injective and prefix-free -/
+theorem C17_utf8_inj (a b : Nat) (ha : ValidScalar a) (hb : ValidScalar b)
+    (h : utf8Enc a = utf8Enc b) : a = b := LevDfa.utf8Enc_inj a b ha hb h
+
 example : Spec.lev [233] [234] = 1 := by decide
+example : utf8Enc 0xE9 = [0xC3, 0xA9] := by decide
 
 end Fst.Props
